@@ -383,7 +383,7 @@ def _d9_drop_template_header(text, arg):
 
 
 D9_RENAMES = [(r'(?:std::)?vector<\s*UINT8\s*>', 'vector_UINT8'), (r'(?:std::)?deque<\s*UINT8\s*>', 'deque_UINT8'),
-              (r'(?:std::)?deque<\s*int\s*>', 'deque_int')]
+              (r'(?:std::)?deque<\s*int\s*>', 'deque_int'), (r'\bOption<\s*unsigned\s*>', 'Option_unsigned')]
 
 
 def d9_type_rename(sl):
@@ -397,7 +397,26 @@ def d9_type_rename(sl):
     return sl
 
 
-RULES = {'D1': _d1_range_for, 'D2': _d2_brace_temp, 'D3': _d3_cond_decl, 'D5': _d5_drop_words,
+def _d10_log_rule(text, arg):
+    """D10: log_rule("<name>") -> log_rule_id(RULE_<name>) when <name> is one of the option names in arg
+    (set), log_rule_id(RULE_NONE) for every other argument. The macro log_rule() of src/log_rules.h only
+    feeds the space log / tracking output; the rewrite replaces the string by its generated id so that the
+    contract can relate the rule logged to the option consulted."""
+    names = arg
+    cnt = [0]
+
+    def rep(mo):
+        cnt[0] += 1
+        a = mo.group(1).strip()
+        lm = re.match(r'^"(\w+)"$', a)
+        if lm and lm.group(1) in names:
+            return 'log_rule_id(RULE_%s)' % lm.group(1)
+        return 'log_rule_id(RULE_NONE /* %s */)' % a.replace('*/', '* /')
+    text = re.sub(r'\blog_rule\(((?:[^()"]|"(?:[^"\\]|\\.)*")*)\)', rep, text)
+    return text, cnt[0]
+
+
+RULES = {'D10': _d10_log_rule, 'D1': _d1_range_for, 'D2': _d2_brace_temp, 'D3': _d3_cond_decl, 'D5': _d5_drop_words,
          'D6': _d6_const_ref_member, 'D7': _d7_drop_lcurrent, 'D8': _d8_subst, 'D4': _d9_drop_template_header}
 
 
